@@ -100,7 +100,8 @@ class Optimizer(Identifiable, Runnable):
                     # one file per epoch, whatever the extension of the name
                     root, ext = os.path.splitext(self.checkpoint)
                     checkpoint_file = f"{root}-{self._epoch}{ext}"
-                    self.save_full_state(checkpoint_file, overwrite=True)
+                    # (a file of that name may exist: a repeated or resumed run)
+                    self.save_full_state(checkpoint_file)
                 else:
                     self.save_full_state(self.checkpoint)
 
@@ -180,7 +181,8 @@ class Optimizer(Identifiable, Runnable):
                     # one file per epoch, whatever the extension of the name
                     root, ext = os.path.splitext(self.checkpoint)
                     checkpoint_file = f"{root}-{self._epoch}{ext}"
-                    self.save_full_state(checkpoint_file, overwrite=True)
+                    # (a file of that name may exist: a repeated or resumed run)
+                    self.save_full_state(checkpoint_file)
                 else:
                     self.save_full_state(self.checkpoint)
 
